@@ -12,7 +12,7 @@ def run(tier, replay):
     else:
         nr = 16 if tier == "quick" else 400
         jobs = [["keys", T, n, (n + hm) % 5, hm, nr] for hm in (0, 1, 2) for (T, n) in (((1, 0), (2, 40), (4, 70)) if tier == "quick" else ((1, 0), (2, 40), (4, 70), (3, 100), (16, 33), (2, 16), (1, 150)))]
-        jobs += [["keys", 2, 40, 1, hm, nr, "zk"] for hm in (0, 1, 2)] + [["keys", 1, 20, 3, 0, nr, "zk"]]
+        jobs += [["keys", 2, 40, 1, hm, nr, "zk"] for hm in (0, 1, 2)] + [["keys", 1, 20, 3, 0, nr, "zk"]] + [["keys", 2, 30, 2, hm, nr, "z0"] for hm in ((1,) if tier == "quick" else (0, 1, 2))]      # z0: a file whose stored tag begins with 0x00
         jobs += [["keys", 1, 20, 1, 1, 4, "pc"]] if tier == "quick" else [["keys", 1, 20, 1, hm, 4, "pc"] for hm in (0, 1, 2)]      # wrong keys whose tag agrees with the stored one in two byte positions
         events = fl.collect(res, PID, jobs)
     st, nfull = fl.judge(res, PID, events, full_sample=40 if tier == "quick" else 400)
